@@ -375,7 +375,8 @@ def i2_initial_individual_complete(F, r):
         raise AnchorError("no InitialOperator::create impl in vrp-core")
 
     def is_source(fn, kind, x):
-        return kind == "call" and (x["callee"] or "").endswith("heuristics::context::InsertionContext::new")
+        return kind == "call" and (x["callee"] or "").endswith(("heuristics::context::InsertionContext::new", "heuristics::factories::create_insertion_context",
+                                                                 "heuristics::context::InsertionContext::new_from_solution", "heuristics::factories::create_insertion_context_from_solution"))
     for m in impls:
         fn = F.fns[m]
         v = mir.must_derive(F, fn, {"l": 0, "p": []}, is_source)
